@@ -229,6 +229,7 @@ class PathRun:
             op = self.atomic[st["id"]]
             fld = atomic_field_of(f, op)
             if fld is None:
+                self.events.append(("unknown-atomic", op["name"], None, pos, st))
                 return
             if op["op"] == "load":
                 self.events.append(("load", fld[1], st["id"], pos, st))
